@@ -9,6 +9,7 @@ import itertools
 import re
 import textwrap
 import traceback
+import warnings
 from pathlib import Path
 from types import MappingProxyType
 from typing import (
@@ -582,6 +583,29 @@ def is_valid_python(source: str) -> bool:
         ast.parse(source)
         return True
     except SyntaxError:
+        return False
+
+
+@functools.lru_cache(maxsize=100_000)
+def is_compilable(source: str) -> bool:
+    """Determine if the python compiler accepts source code.
+
+    This is stricter than is_valid_python: a return outside a function, a yield inside a
+    comprehension, duplicate arguments, a __future__ import that is not first etc. can all be
+    parsed, but such a module cannot be imported.
+
+    Args:
+        source (str): Python source code
+
+    Returns:
+        bool: True if source can be compiled.
+    """
+    try:
+        with warnings.catch_warnings():
+            warnings.simplefilter("ignore")  # e.g. invalid escape sequences
+            compile(source, "<unknown>", "exec", dont_inherit=True)
+        return True
+    except (SyntaxError, ValueError):
         return False
 
 
